@@ -42,7 +42,8 @@ class Disposables:
                 return (single,)
 
             case multiple:
-                return multiple
+                # consume it here - producing the state is a part of initializing
+                return tuple(multiple)
 
     async def __aenter__(self) -> Iterable[State]:
         initializing: list[Task[Iterable[State]]] = [
